@@ -222,6 +222,29 @@ func removeInputParamOnce(match matcher,
 	return edits
 }
 
+// Removes the inputs of pipelines which nothing in the pipeline refers to.
+//
+// The compiler does not accept such a pipeline, so if there are any it is
+// because the edits already applied to the asts removed every use of them.
+func removeAllUnboundInputs(asts []*syntax.Ast) Edit {
+	var edits editSet
+	checked := make(map[decId]struct{})
+	for _, ast := range asts {
+		for _, pipe := range ast.Pipelines {
+			dec := makeDecId(pipe)
+			if _, ok := checked[dec]; !ok {
+				checked[dec] = struct{}{}
+				edits = removeUnboundPipelineInputs(pipe,
+					nil, nil, asts, edits)
+			}
+		}
+	}
+	if len(edits) == 0 {
+		return nil
+	}
+	return edits
+}
+
 func removeUnboundPipelineInputs(pipe *syntax.Pipeline,
 	removedOuts, removedCalls StringSet, asts []*syntax.Ast, edits editSet) editSet {
 	inputs := make(StringSet, len(pipe.InParams.List))
